@@ -32,8 +32,11 @@ type SrcSpec struct {
 	Ctor string `json:"ctor,omitempty"` // "unsafe" (default) | "safe" | "default" | "eventually"
 	// TermFirst: with several producers only producer 0 issues the script's terminal notification; the
 	// others emit the values only (so the one terminal call can collide with somebody else's Next)
-	TermFirst bool   `json:"term_first,omitempty"`
-	Script    []Step `json:"script"`
+	TermFirst bool `json:"term_first,omitempty"`
+	// Subject: kind of subject behind a hot source ("" = publish; see subjectKinds), SubjectBuf its buffer size
+	Subject    string `json:"subject,omitempty"`
+	SubjectBuf int    `json:"subject_buf,omitempty"`
+	Script     []Step `json:"script"`
 	// Producers > 1: that many goroutines replay the script concurrently into the same destination
 	// (contract-breaking producer; only meaningful for safe constructors and subjects).
 	Producers int `json:"producers,omitempty"`
@@ -94,7 +97,11 @@ func (s *Scn) Class() string {
 	}
 	var modes []string
 	for _, src := range s.Sources {
-		modes = append(modes, src.Mode)
+		m := src.Mode
+		if src.Subject != "" {
+			m += ":" + src.Subject
+		}
+		modes = append(modes, m)
 	}
 	return fmt.Sprintf("%s/%s|ops=%s|src=%s", s.Family, s.Sub, strings.Join(ops, ">"), strings.Join(modes, ","))
 }
@@ -482,6 +489,8 @@ type Src struct {
 	Calls []ProdCall
 	// AfterCall runs on the producer's actor right after each call returned
 	AfterCall func(c *ProdCall)
+	// BeforeCall runs on the producer's actor right before each call into the library
+	BeforeCall func(st Step)
 	// SubHook runs at the start of the n-th subscription (inside the subscribe function)
 	SubHook func(n int)
 }
@@ -537,6 +546,9 @@ func (e *Env) NewSrc(spec SrcSpec) *Src {
 }
 
 func (s *Src) emit(dest ro.Observer[int], ctx context.Context, prod int, st Step) {
+	if s.BeforeCall != nil {
+		s.BeforeCall(st)
+	}
 	c := ProdCall{Src: s.ID, Prod: prod, Step: st, Invoke: s.env.Step(), Actor: s.env.K.Cur().ID}
 	idx := len(s.Calls)
 	s.Calls = append(s.Calls, c)
@@ -612,7 +624,7 @@ func (s *Src) scriptFor(n int) []Step {
 func (s *Src) Obs() ro.Observable[int] {
 	if s.Spec.Mode == "hot" {
 		if s.Subject == nil {
-			s.Subject = ro.NewPublishSubject[int]()
+			s.Subject = newSubject(s.Spec.Subject, s.Spec.SubjectBuf)
 		}
 		return s.Subject
 	}
